@@ -249,6 +249,78 @@ def run(prop, tier):
     return check.finish()
 
 
+def narrowing_programs():
+    """C09, end to end: branch conditions that test ONE value several times, over every pair of non-trivial
+    subsets T, U of four nullary tags; the value that falls through must inhabit the type the compiler
+    computed for the fall-through (narrowing by intersection, then the complement handed to later branches).
+    (seeded change C09-3: a repeated check on the same value replaced the original type by the already narrowed
+    one, so the complement lost every value the FIRST check had excluded.)"""
+    import itertools
+    tags = ["A", "B", "C", "D"]
+    subs = [c for k in (1, 2, 3) for c in itertools.combinations(tags, k)]
+    conds = [("tu", "x ='t, x ='u"), ("tut", "x ='t, x ='u, x ='t"), ("t", "x ='t")]
+    out = []
+    for T in subs:
+        for U in subs:
+            head = "'t = %s, 'u = %s, mk = #'int { | =0 => A | =1 => B | =2 => C | D }" % (" | ".join(T), " | ".join(U))
+            for cn, cond in conds:
+                if cn == "t" and U != subs[0]:
+                    continue
+                for n in range(4):
+                    out.append("%s, x = %d mk, { %s => Hit | x }" % (head, n, cond))
+                    out.append("%s, g = #(A | B | C | D) { =x, { %s => Hit | x ='t => [x] | x } }, %d mk g" % (head, cond, n))
+    return out
+
+
+def judge_narrowing(check, prop, programs=None):
+    """runs narrowing_programs() through the real compiler and VM (harness bin typerun) and has TLC (Soundness.tla)
+    judge each observed (value, inferred type); returns the number judged"""
+    reqs = [{"id": "n%d" % i, "src": src} for i, src in enumerate(programs or narrowing_programs())]
+    outs = {}
+    for i in range(0, len(reqs), 500):
+        p = common.run_bin("typerun", stdin="\n".join(json.dumps(r) for r in reqs[i:i + 500]) + "\n", timeout=3000)
+        for line in p.stdout.splitlines():
+            if line.startswith("{"):
+                r = json.loads(line)
+                outs[r["id"]] = r
+        if p.returncode != 0:
+            raise ToolError("typerun died: " + p.stderr[-500:])
+    tf = os.path.join(WORK, "narrow_trace_%d.ndjson" % os.getpid())
+    byid = {r["id"]: r for r in reqs}
+    nrec = rejected = 0
+    with open(tf, "w") as f:
+        for r in reqs:
+            o = outs.get(r["id"])
+            if o is None or o["outcome"]["t"] == "none":
+                continue
+            if o["outcome"]["t"] in ("rejected", "nocode"):
+                rejected += 1
+                continue
+            out = o["outcome"] if o["outcome"]["t"] != "value" else {"t": "value"}
+            f.write(json.dumps({"id": r["id"], "outcome": out, "rich": o["rich"], "type": o["type"],
+                                "type_text": o["type_text"], "nilok": False}) + "\n")
+            nrec += 1
+    res = tlc("Soundness", "Soundness.cfg", env={"SOUND_TRACE": tf}, workers=1, timeout=3000)
+    check.add_tlc("judge:Soundness(narrowing programs)", res)
+    if "INCOMPLETE" in res.out or (not res.ok and "MISMATCH|" not in res.out):
+        raise ToolError("Soundness did not consume the records: " + res.out[-1500:])
+    os.remove(tf)
+    check.cov["narrowing_programs"] = {"offered": len(reqs), "judged": nrec, "rejected_by_compiler": rejected}
+    seen = set()
+    for m in re.finditer(r'^"MISMATCH\|([^|]*)\|(\w+)\|(.*)"$', res.out, re.M):
+        rid, rule, detail = m.group(1), m.group(2), m.group(3)
+        src = byid[rid]["src"]
+        key = "narrowing:%s:%s" % (rule, src[:160])
+        if key in seen or len(seen) >= 5:
+            continue
+        seen.add(key)
+        check.violation({"property": prop, "kind": "narrowing-program", "rule": rule, "program": src, "detail": detail[:800],
+                         "outcome": outs.get(rid, {}).get("outcome"), "type": outs.get(rid, {}).get("type_text")},
+                        name="NarrowingKeepsValues", key=key,
+                        what="the value that reaches a branch does not inhabit the narrowed type: %s -> %s" % (src[:200], detail[:160]))
+    return nrec
+
+
 def replay(prop, path):
     r = json.load(open(path))
     p = common.run_bin("typerun", stdin=json.dumps({"id": "replay", "src": r["program"]}) + "\n")
